@@ -110,7 +110,11 @@ def main():
       if job.get("minimise") and hasattr(mod, "shrink"):
         res["minimised"] = minimise(mod, sc, job["minimise"], t0 + 0.8 * tmo)
     except Exception as e:  # harness or library exception: reported, never silently dropped
-      res["status"] = "error"
+      from sim.core import ModelRejected
+
+      # a model that put_model refuses is outside the input space of the properties: counted as rejected (evidence: run_status),
+      # never as a pass of an evaluation; anything else is a harness error
+      res["status"] = "rejected" if isinstance(e, ModelRejected) else "error"
       res["error"] = f"{type(e).__name__}: {e}"
       res["trace"] = traceback.format_exc()[-3000:]
       res["scenario"] = sc
